@@ -18,6 +18,8 @@ use wide::{u8x16, u64x2};
 // what parts we need and which not
 #[allow(dead_code)]
 mod gf128;
+#[cfg(polytune_verif)]
+pub(crate) use gf128::verif_clmul_scalar;
 
 /// A 128-bit block. Uses SIMD operations where available.
 ///
